@@ -222,7 +222,7 @@ PROPS = {
         level_text='Theorem sem_order (Coq, no axioms): in the reference semantics, for every program and every choice of inner() call counts, the '
                    'call log is the listed order, each provider once per traversal, the remainder once per inner() call; exec_refines_sem and '
                    'static_refines transfer it to the machine (same final world for every behaviour; static part = fold over the listed order). '
-                   'Tied to /repo by comparing the final working order and the call log. C05_selection_keeps_the_list (selection only marks: the list it returns is the list it was given, entry by entry) and C05_final_list_is_listed_order (without Reorder the final working list is the assembled list), both without hypotheses.',
+                   'Tied to /repo by comparing the final working order and the call log. C05_selection_keeps_the_list (selection only marks: the list it returns is the list it was given, entry by entry) and C05_final_list_is_listed_order (without Reorder the final working list is the assembled list), both without hypotheses. End to end without any hypothesis on the plan: C05_log_of_every_plain_chain - for every case without Reorder annotation and init function that binds, the log of k invocations is session_log (invoke function; included static injectors once, in the first invocation; included per-invocation providers in working-list order, once per inner() call below a wrapper).',
         level_note=CHAIN_NOTE, design_ref='DESIGN.md section 8 (C05)',
         assumptions=['plan_wf: proved for every bound chain under one positional condition (proved for cases without Reorder, evaluated on the others)'],
     ),
@@ -238,7 +238,7 @@ PROPS = {
                    'context are hoisted), taint_sound (a provider reading a type supplied by invoke or an earlier per-invocation provider is never hoisted), '
                    'must_cache_or_fail, hoist_sufficient; and about the machine: static_not_rerun, done_sticky, base_frozen, first_run_sets_done (the static '
                    'chain runs exactly in the first init / first invoke and its results are what every invocation sees); Coq, no axioms. The table facts are '
-                   'vm_compute checks over the generated Registry.v, so editing the table re-checks them.',
+                   'vm_compute checks over the generated Registry.v, so editing the table re-checks them. End to end: C06_static_part_runs_once_per_bound_chain (cases without Reorder annotation and init function, no hypothesis on the plan).',
         level_note=CHAIN_NOTE + ' tools/regen pins the source text of the simple predicates and fails closed on unrecognised table statements.',
         design_ref='DESIGN.md section 8 (C06)',
         assumptions=['sync.Once semantics for concurrent first invocations: see C10'],
@@ -262,7 +262,7 @@ PROPS = {
                    'included), validate_sound (worklist soundness from the dependency-closure invariant), provides_returns_closed, chain_refines (only '
                    'included providers are compiled and run); Coq, no axioms. The clause "no other provider runs unless something it produced is actually '
                    'received" is checked by an independent Coq monitor on the implementation\'s plan (nearest-producer / nearest-returner analysis) and is '
-                   'NOT a theorem: it is refuted by known finding D6 and claimed only where the faithful model\'s own plan is justified.',
+                   'NOT a theorem: it is refuted by known finding D6 and claimed only where the faithful model\'s own plan is justified. End to end without any hypothesis on the plan: C03_only_included_providers_run - for every case without Reorder annotation and init function that binds, whatever is logged in a session of any length is the invoke function or an included provider.',
         level_note=CHAIN_NOTE + ' Known finding D6 (four listed inputs) is replayed on every run.', design_ref='DESIGN.md section 8 (C03)',
         assumptions=['justification clause validated by monitor only; D6 region excluded'],
     ),
